@@ -186,7 +186,13 @@ def jsonable(x, depth=0):
 def violation(props, monitor, mechanism, **witness):
     """Record a violation of the given properties (list of ids)."""
     S.counters[f"violations:{monitor}"] += 1
-    if len(S.violations) >= S.max_violations:
+    # two budgets: violations of the property under check are never crowded out by (possibly hundreds of) violations the
+    # same change causes in neighbouring properties - only the former decide the verdict (seed C08-U: a recursion that
+    # filled the list with C01 / C02 / C07 entries before the C08 relation was evaluated)
+    own = S.prop is None or S.prop in props
+    kind = "own" if own else "other"
+    S.counters[f"violations_recorded:{kind}"] += 1
+    if S.counters[f"violations_recorded:{kind}"] > S.max_violations:
         S.counters["violations_dropped"] += 1
         return
     S.violations.append(
